@@ -128,6 +128,7 @@ std::vector<uint64_t> g_change_points;
 int g_low_prio = 0;
 int g_cas_weak_fail = 8;                 // 1/n spurious failures of compare_exchange_weak (0 = never)
 bool g_trace_all = false;
+bool g_trace_clock = false;              // opt-in: `ev clock <ns>` lines and ` to=<ns>` on timed fwait lines
 
 thread_local Thread* t_self = nullptr;
 
@@ -414,6 +415,7 @@ uint64_t vrt_steps() { return g_steps; }
 uint64_t vrt_switches() { return g_switches; }
 uint64_t vrt_now() { return g_clock; }
 uint64_t vrt_races() { return g_races; }
+void vrt_trace_clock(int on) { g_trace_clock = on != 0; }
 
 // =============================================================================================
 // TSan ABI: atomics
@@ -688,6 +690,8 @@ long syscall(long nr, ...) {
       reschedule(false);
       uint32_t cur = __atomic_load_n(addr, __ATOMIC_SEQ_CST);
       if (cur != (uint32_t)c) {
+        if (named && g_trace_clock && d) tracef("%d fwait %s %u eagain %u to=%llu\n", t_self->id, nm, (uint32_t)c, cur, (unsigned long long)ts_ns((const struct timespec*)d));
+        else
         if (named) tracef("%d fwait %s %u eagain %u\n", t_self->id, nm, (uint32_t)c, cur);
         errno = EAGAIN;
         return -1;
@@ -695,6 +699,8 @@ long syscall(long nr, ...) {
       uint64_t dl = UINT64_MAX;
       const struct timespec* ts = (const struct timespec*)d;
       if (ts) dl = (op == FUTEX_WAIT) ? g_clock + ts_ns(ts) : ts_ns(ts);
+      if (named && g_trace_clock && ts) tracef("%d fwait %s %u sleep to=%llu\n", t_self->id, nm, (uint32_t)c, (unsigned long long)ts_ns(ts));
+      else
       if (named) tracef("%d fwait %s %u sleep\n", t_self->id, nm, (uint32_t)c);
       block(BLK_FUTEX, addr, dl);
       if (t_self->timed_out) {
@@ -769,6 +775,7 @@ int clock_gettime(clockid_t clk, struct timespec* ts) {
   g_clock += 1000;   // reading the clock takes time, so clock-polling loops make progress
   ts->tv_sec = g_clock / 1000000000ull;
   ts->tv_nsec = g_clock % 1000000000ull;
+  if (g_trace_clock) tracef("%d ev clock %llu\n", t_self->id, (unsigned long long)g_clock);
   return 0;
 }
 
